@@ -11,3 +11,291 @@ Definition spec_sar (v k : Z) : Z := v / 2 ^ k.     (* floor division = sign-ext
 (* number of set bits among the low 64 bits *)
 Definition spec_popcount64 (z : Z) : Z :=
   Z.of_nat (length (filter (fun i => Z.testbit (wrap_u64 z) (Z.of_nat i)) (seq 0 64))).
+
+(* ================================================================== flat values *)
+
+(* what a builtin's argument/result *means*: binaries are flat byte lists (no rope structure) *)
+Inductive fval :=
+| FInt (z : Z)
+| FBin (bs : list Z)
+| FTup (fs : list fval)
+| FOther.
+
+Definition fnil : fval := FTup [].
+
+Fixpoint flatten (v : bval) : fval :=
+  match v with
+  | BInt z => FInt z
+  | BBin r => FBin (bytes_of r)
+  | BTup fs => FTup (map flatten fs)
+  | BOther => FOther
+  end.
+
+Definition flatten_out (o : outcome bval) : outcome fval :=
+  match o with Val v => Val (flatten v) | Err e => Err e | Panic s => Panic s end.
+
+Definition blen (bs : list Z) : Z := Z.of_nat (length bs).
+
+(* the number denoted by a byte string read big-endian (= its bit string, MSB first) *)
+Definition be_val (bs : list Z) : Z := fold_left (fun acc b => acc * 256 + b) bs 0.
+(* the n-byte big-endian encoding of v mod 256^n *)
+Fixpoint be_bytes (n : nat) (v : Z) : list Z :=
+  match n with
+  | O => []
+  | S k => (v / 256 ^ Z.of_nat k) mod 256 :: be_bytes k v
+  end.
+
+(* ================================================================== binary builtins *)
+(* Every spec is total on fval: ill-shaped arguments are TypeMismatch, arguments outside the
+   documented domain are InvalidArgument. No spec mentions ropes, machine words or Panic. *)
+
+Definition spec_binary_new (a : fval) : outcome fval :=
+  match a with
+  | FInt n => if (0 <=? n) && (n <=? MAX_BINARY_SIZE) then Val (FBin (repeat 0 (Z.to_nat n)))
+              else Err InvalidArgument
+  | _ => Err TypeMismatch
+  end.
+
+Definition spec_binary_length (a : fval) : outcome fval :=
+  match a with FBin x => Val (FInt (blen x)) | _ => Err TypeMismatch end.
+
+Definition spec_binary_concat (a : fval) : outcome fval :=
+  match a with
+  | FTup [FBin x; FBin y] => if blen x + blen y <=? MAX_BINARY_SIZE then Val (FBin (x ++ y))
+                             else Err InvalidArgument
+  | _ => Err TypeMismatch
+  end.
+
+(* count must be a usize; the repeated size must not exceed MAX_BINARY_SIZE *)
+Definition spec_binary_repeat (a : fval) : outcome fval :=
+  match a with
+  | FTup [FBin x; FInt c] =>
+      if (0 <=? c) && (c <? two64) && (blen x * c <=? MAX_BINARY_SIZE)
+      then Val (FBin (concat (repeat x (Z.to_nat c)))) else Err InvalidArgument
+  | _ => Err TypeMismatch
+  end.
+
+Definition pad_to (n : nat) (l : list Z) : list Z := l ++ repeat 0 (n - length l).
+Definition map2 (f : Z -> Z -> Z) (l1 l2 : list Z) : list Z :=
+  map (fun p => f (fst p) (snd p)) (combine l1 l2).
+
+(* and: the shorter length; or/xor: the longer length, zero padded *)
+Definition spec_binary_and (a : fval) : outcome fval :=
+  match a with
+  | FTup [FBin x; FBin y] => Val (FBin (map2 Z.land x y))
+  | _ => Err TypeMismatch
+  end.
+Definition spec_padded (op : Z -> Z -> Z) (a : fval) : outcome fval :=
+  match a with
+  | FTup [FBin x; FBin y] =>
+      let n := Nat.max (length x) (length y) in Val (FBin (map2 op (pad_to n x) (pad_to n y)))
+  | _ => Err TypeMismatch
+  end.
+Definition spec_binary_or := spec_padded Z.lor.
+Definition spec_binary_xor := spec_padded Z.lxor.
+
+Definition spec_binary_not (a : fval) : outcome fval :=
+  match a with FBin x => Val (FBin (map (fun b => 255 - b) x)) | _ => Err TypeMismatch end.
+
+(* first index >= off of the byte, nil when absent *)
+Definition spec_binary_index (a : fval) : outcome fval :=
+  match a with
+  | FTup [FBin x; FInt byte; FInt off] =>
+      if (0 <=? byte) && (byte <? 256) && (0 <=? off) && (off <? two64)
+      then Val (match find_from byte x off with Some i => FInt i | None => fnil end)
+      else Err InvalidArgument
+  | _ => Err TypeMismatch
+  end.
+
+(* logical shift of the big-endian bit string, length preserved: left = multiply by 2^k and drop
+   the bits above 8n, right = divide by 2^|k| *)
+Definition spec_binary_shift (a : fval) : outcome fval :=
+  match a with
+  | FTup [FBin x; FInt k] =>
+      if in_i64 k then
+        let n := length x in
+        Val (FBin (be_bytes n (if 0 <=? k then (be_val x * 2 ^ k) mod 256 ^ Z.of_nat n
+                               else be_val x / 2 ^ (- k))))
+      else Err InvalidArgument
+  | _ => Err TypeMismatch
+  end.
+
+(* number of set bits *)
+Definition bits_set (b : Z) : Z :=
+  Z.of_nat (length (filter (fun i => Z.testbit b (Z.of_nat i)) (seq 0 8))).
+Definition spec_binary_popcount (a : fval) : outcome fval :=
+  match a with
+  | FBin x => Val (FInt (fold_right Z.add 0 (map bits_set x)))
+  | _ => Err TypeMismatch
+  end.
+
+(* bit window [start, start+nb) of the 8n-bit big-endian string, start = 8*byte_offset+bit_offset *)
+Definition window_ok (n bo bi nb : Z) : bool :=
+  (0 <=? bo) && (0 <=? bi) && (bi <=? 7) && (1 <=? nb) && (nb <=? 64) && (8 * bo + bi + nb <=? 8 * n).
+
+(* the integer denoted by those bits *)
+Definition spec_binary_get (a : fval) : outcome fval :=
+  match a with
+  | FTup [FBin x; FInt bo; FInt bi; FInt nb] =>
+      if window_ok (blen x) bo bi nb then
+        let low := 8 * blen x - (8 * bo + bi) - nb in          (* bits to the right of the window *)
+        Val (FInt ((be_val x / 2 ^ low) mod 2 ^ nb))
+      else Err InvalidArgument
+  | _ => Err TypeMismatch
+  end.
+
+(* replace those bits by v (0 <= v < 2^nb, and v must fit a signed 64-bit integer) *)
+Definition spec_binary_set (a : fval) : outcome fval :=
+  match a with
+  | FTup [FBin x; FInt bo; FInt bi; FInt v; FInt nb] =>
+      if window_ok (blen x) bo bi nb && (0 <=? v) && (v <? 2 ^ nb) && (v <? two63) then
+        let low := 8 * blen x - (8 * bo + bi) - nb in
+        let V := be_val x in
+        Val (FBin (be_bytes (length x) ((V / 2 ^ (low + nb)) * 2 ^ (low + nb) + v * 2 ^ low + V mod 2 ^ low)))
+      else Err InvalidArgument
+  | _ => Err TypeMismatch
+  end.
+
+(* [start, end) *)
+Definition spec_binary_slice (a : fval) : outcome fval :=
+  match a with
+  | FTup [FBin x; FInt s; FInt e] =>
+      if (0 <=? s) && (s <=? e) && (e <=? blen x)
+      then Val (FBin (firstn (Z.to_nat (e - s)) (skipn (Z.to_nat s) x)))
+      else Err InvalidArgument
+  | _ => Err TypeMismatch
+  end.
+
+(* FNV-1a *)
+Definition spec_binary_hash32 (a : fval) : outcome fval :=
+  match a with
+  | FBin x => Val (FInt (fold_left (fun h b => (Z.lxor h b * 16777619) mod 2 ^ 32) x 2166136261))
+  | _ => Err TypeMismatch
+  end.
+Definition spec_binary_hash64 (a : fval) : outcome fval :=
+  match a with
+  | FBin x => Val (FInt (to_i64 (fold_left (fun h b => (Z.lxor h b * 1099511628211) mod 2 ^ 64) x
+                                           14695981039346656037)))
+  | _ => Err TypeMismatch
+  end.
+
+(* append v as n big-endian bytes (1 <= n <= 8, 0 <= v < 256^n, v fits a signed 64-bit integer) *)
+Definition spec_binary_append (a : fval) : outcome fval :=
+  match a with
+  | FTup [FBin x; FInt v; FInt n] =>
+      if (1 <=? n) && (n <=? 8) && (0 <=? v) && (v <? 256 ^ n) && (v <? two63)
+         && (blen x + n <=? MAX_BINARY_SIZE)
+      then Val (FBin (x ++ be_bytes (Z.to_nat n) v)) else Err InvalidArgument
+  | _ => Err TypeMismatch
+  end.
+
+(* ================================================================== vector kernels *)
+(* a binary is a flat array of w-byte little-endian two's-complement lanes, w = 4 or 8 *)
+
+Definition lane_ok (w v : Z) : bool := (- 2 ^ (8 * w - 1) <=? v) && (v <? 2 ^ (8 * w - 1)).
+(* lane i = bytes [i*w, (i+1)*w) *)
+Definition spec_lane (w : Z) (x : list Z) (i : Z) : Z :=
+  to_signed (8 * w) (le_val (firstn (Z.to_nat w) (skipn (Z.to_nat (i * w)) x))).
+Definition spec_lanes (w : Z) (x : list Z) : list Z := map (spec_lane w x) (zrange (blen x / w)).
+Definition encode_lanes (w : Z) (vs : list Z) : list Z :=
+  flat_map (fun v => le_bytes (Z.to_nat w) (v mod 2 ^ (8 * w))) vs.
+Definition width_ok (w : Z) : bool := (w =? 4) || (w =? 8).
+
+(* exact lane-wise op; nil when ragged, lengths differ, or any result lane overflows the width *)
+Definition spec_elementwise (op : Z -> Z -> Z) (a : fval) : outcome fval :=
+  match a with
+  | FTup [FBin x; FBin y; FInt w] =>
+      if negb (width_ok w) then Err InvalidArgument else
+      if negb (blen x =? blen y) || negb (blen x mod w =? 0) then Val fnil else
+      let r := map2 op (spec_lanes w x) (spec_lanes w y) in
+      if forallb (lane_ok w) r then Val (FBin (encode_lanes w r)) else Val fnil
+  | _ => Err TypeMismatch
+  end.
+Definition spec_vector_add := spec_elementwise Z.add.
+Definition spec_vector_subtract := spec_elementwise Z.sub.
+Definition spec_vector_multiply := spec_elementwise Z.mul.
+
+(* one mask byte (1/0) per lane *)
+Definition spec_compare (pred : Z -> Z -> bool) (a : fval) : outcome fval :=
+  match a with
+  | FTup [FBin x; FBin y; FInt w] =>
+      if negb (width_ok w) then Err InvalidArgument else
+      if negb (blen x =? blen y) || negb (blen x mod w =? 0) then Val fnil else
+      Val (FBin (map2 (fun p q => if pred p q then 1 else 0) (spec_lanes w x) (spec_lanes w y)))
+  | _ => Err TypeMismatch
+  end.
+Definition spec_vector_less_than := spec_compare Z.ltb.
+Definition spec_vector_equal := spec_compare Z.eqb.
+Definition spec_vector_greater_than := spec_compare Z.gtb.
+
+(* keep the lanes whose mask byte is non-zero *)
+Definition spec_vector_take (a : fval) : outcome fval :=
+  match a with
+  | FTup [FBin d; FInt w; FBin m] =>
+      if negb (width_ok w) then Err InvalidArgument else
+      if negb (blen d mod w =? 0) || negb (blen m =? blen d / w) then Val fnil else
+      Val (FBin (concat (map (fun p : Z * Z =>
+                                if snd p =? 0 then []
+                                else firstn (Z.to_nat w) (skipn (Z.to_nat (fst p * w)) d))
+                             (combine (zrange (blen m)) m))))
+  | _ => Err TypeMismatch
+  end.
+
+Definition spec_vector_get (a : fval) : outcome fval :=
+  match a with
+  | FTup [FBin x; FInt w; FInt i] =>
+      if negb (width_ok w) then Err InvalidArgument else
+      if (blen x mod w =? 0) && (0 <=? i) && (i <? blen x / w) then Val (FInt (spec_lane w x i))
+      else Val fnil
+  | _ => Err TypeMismatch
+  end.
+
+Definition spec_vector_push (a : fval) : outcome fval :=
+  match a with
+  | FTup [FBin x; FInt w; FInt v] =>
+      if negb (width_ok w) then Err InvalidArgument else
+      if negb (lane_ok w v && (blen x mod w =? 0)) then Val fnil else
+      if blen x + w <=? MAX_BINARY_SIZE then Val (FBin (x ++ encode_lanes w [v]))
+      else Err InvalidArgument
+  | _ => Err TypeMismatch
+  end.
+
+Definition spec_vector_sum (a : fval) : outcome fval :=
+  match a with
+  | FTup [FBin x; FInt w] =>
+      if negb (width_ok w) then Err InvalidArgument else
+      if negb (blen x mod w =? 0) then Val fnil else
+      Val (FInt (fold_right Z.add 0 (spec_lanes w x)))
+  | _ => Err TypeMismatch
+  end.
+
+Definition spec_vector_dot (a : fval) : outcome fval :=
+  match a with
+  | FTup [FBin x; FBin y; FInt w] =>
+      if negb (width_ok w) then Err InvalidArgument else
+      if negb (blen x =? blen y) || negb (blen x mod w =? 0) then Val fnil else
+      Val (FInt (fold_right Z.add 0 (map2 Z.mul (spec_lanes w x) (spec_lanes w y))))
+  | _ => Err TypeMismatch
+  end.
+
+(* ================================================================== integer builtins, bitwise family *)
+Definition spec_integer_not (a : fval) : outcome fval :=
+  match a with
+  | FInt n => if in_i64 n then Val (FInt (spec_not n)) else Err InvalidArgument
+  | _ => Err TypeMismatch
+  end.
+(* shift left wraps to 64 bits; shift right is arithmetic (floor division) *)
+Definition spec_integer_shift (a : fval) : outcome fval :=
+  match a with
+  | FTup [FInt v; FInt k] =>
+      if in_i64 v && in_i64 k then Val (FInt (if 0 <=? k then spec_shl v k else spec_sar v (- k)))
+      else Err InvalidArgument
+  | FTup [_; _] => Err TypeMismatch
+  | FTup _ => Err InvalidArgument
+  | _ => Err TypeMismatch
+  end.
+Definition spec_integer_popcount (a : fval) : outcome fval :=
+  match a with
+  | FInt n => if in_i64 n then Val (FInt (spec_popcount64 n)) else Err InvalidArgument
+  | _ => Err TypeMismatch
+  end.
